@@ -538,6 +538,68 @@ def unit_independence(spec, st, obs, rs, rng):
     return [], 1
 
 
+def unit_of_an_edit(spec, st, obs, rs, rng):
+    """an input edited in place to the same *number* in another unit (150 MB -> 150 kB) is an edit like any other:
+    the live model then equals the model built with the new value; and edited to the same *quantity* written in
+    another unit it keeps every result"""
+    import copy
+    from harness import specgen, kcalc, history
+    if st != "ok" or rs is None or history.has_shared_job(spec):
+        return [], 0
+    servers, storages, networks = reachable(spec)
+    names = set(servers) | set(storages) | set(networks)
+    for pn in spec["system"]["usage_patterns"]:
+        p = spec["patterns"][pn]
+        names |= set(p["devices"]) | {p["country"]}
+        for s_ in spec["journeys"][p["usage_journey"]]["uj_steps"]:
+            names |= set(spec["steps"][s_]["jobs"])
+    cands = []
+    for kind in ("jobs", "servers", "storages", "networks", "devices", "countries"):
+        for n, o in spec[kind].items():
+            if n not in names:
+                continue
+            for prm, v in o.items():
+                if isinstance(v, dict) and "m" in v and (kind, prm) in specgen.PARAM_FAMILY and prm not in (
+                        "fixed_nb_of_instances", "request_duration", "data_storage_duration", "user_time_spent"):
+                    fam, _ = specgen.PARAM_FAMILY[(kind, prm)]
+                    alts = [a for a in specgen.ALT_UNITS.get(fam, []) if a != v["u"] and realsys.unit_info(a)[0] != realsys.unit_info(v["u"])[0]]
+                    if alts and v["m"] != 0:
+                        cands.append((kind, n, prm, alts))
+    vs, ev = [], 0
+    for kind, n, prm, alts in (rng.sample(cands, min(2, len(cands))) if cands else []):
+        old_q = spec[kind][n][prm]
+        new_q = {"m": old_q["m"], "u": rng.choice(alts)}
+        spec2 = copy.deepcopy(spec)
+        spec2[kind][n][prm] = new_q
+        st2, obs2, _ = kcalc.real_outcome(spec2)
+        if st2 != "ok":
+            continue
+        ev += 1
+        try:
+            setattr(rs.objs[n], prm, realsys.mkq(new_q))
+            live_obs = {key: v for key, v in rs.observe().items() if key in obs2}
+            sens = ceil_sensitive(spec2, obs2) | ceil_sensitive(spec2, live_obs)
+            if sens:
+                sens |= {"__system__"}
+            why = obs_diff(drop_objects(live_obs, sens), drop_objects(obs2, sens))
+            setattr(rs.objs[n], prm, realsys.mkq(old_q))
+            back = {key: v for key, v in rs.observe().items() if key in obs}
+            sens = ceil_sensitive(spec, obs) | ceil_sensitive(spec, back)
+            if sens:
+                sens |= {"__system__"}
+            why_back = obs_diff(drop_objects(back, sens), drop_objects(obs, sens))
+        except Exception as e:  # noqa
+            # a refused edit (capacity …) leaves the live model in the state of finding D10: stop here
+            break
+        if why:
+            vs.append(viol("C10", "edit-to-same-number-in-other-unit", f"{n}.{prm} edited from {old_q['m']} {old_q['u']} to {new_q['m']} {new_q['u']}: the live model differs from the model built with it: {why}"))
+            break
+        if why_back:
+            vs.append(viol("C10", "edit-back-to-original-unit", f"{n}.{prm} {old_q['m']} {old_q['u']} -> {new_q['u']} -> back: {why_back}"))
+            break
+    return vs, ev
+
+
 # ---------------------------------------------------------------------------------------------
 # C12 — footprints respond to each driver in the documented proportion
 # ---------------------------------------------------------------------------------------------
@@ -661,6 +723,46 @@ def scaling(spec, st, obs, rs, rng):
                 vs.append(viol("C12", f"in-place:{kind}.{param}", f"×{k} on {name}.{param} edited in place differs from the model built with it: {why}"))
             elif why_back:
                 vs.append(viol("C12", f"in-place-undo:{kind}.{param}", f"×{k} then ÷{k} on {name}.{param}: {why_back}"))
+    # a device among several in a usage pattern: the pattern's footprints move by exactly that device's share
+    multi = [(pn, d) for pn in pats for d in sorted(set(spec["patterns"][pn]["devices"])) if len(spec["patterns"][pn]["devices"]) >= 2]
+    for pn, d in (rng.sample(multi, min(2, len(multi))) if multi else []):
+        param = rng.choice(["carbon_footprint_fabrication", "lifespan", "fraction_of_usage_time", "power"])
+        spec2 = copy.deepcopy(spec)
+        spec2["devices"][d][param]["m"] = float(frac(spec2["devices"][d][param]["m"]) * kf)
+        st2, obs2, _ = kcalc.real_outcome(spec2)
+        if st2 != "ok":
+            continue
+        ev += 1
+        dv = spec["devices"][d]
+        bad = None
+        touched = set()
+        for q in pats:
+            m_q = spec["patterns"][q]["devices"].count(d)
+            if not m_q:
+                continue
+            njp = series_phys(obs.get((q, "nb_usage_journeys_in_parallel", "")))
+            if param == "power":
+                attrs = ["devices_energy"]
+                term = qphys(dv["power"]) * 3600
+                kk = kf
+            else:
+                attrs = ["devices_fabrication_footprint", "instances_fabrication_footprint"]
+                term = qphys(dv["carbon_footprint_fabrication"]) * 3600 / (qphys(dv["lifespan"]) * qphys(dv["fraction_of_usage_time"]))
+                kk = kf if param == "carbon_footprint_fabrication" else 1 / kf
+            for a in attrs:
+                touched.add((q, a))
+                old_s = series_phys(obs.get((q, a, "")))
+                exp_s = {t: old_s.get(t, 0) + (kk - 1) * m_q * term * njp.get(t, 0) for t in set(old_s) | set(njp)}
+                why = series_close(series_phys(obs2.get((q, a, ""))), exp_s)
+                if why and not bad:
+                    bad = f"{q}.{a}: {why}"
+            touched |= {(q, "devices_energy_footprint"), (q, "energy_footprint")} if param == "power" else set()
+        if not bad:
+            rest1 = {key: v for key, v in obs.items() if (key[0], key[1]) not in touched and key[0] != "__system__"}
+            rest2 = {key: v for key, v in obs2.items() if (key[0], key[1]) not in touched and key[0] != "__system__"}
+            bad = obs_diff(rest1, rest2)
+        if bad:
+            vs.append(viol("C12", f"device-share:{param}", f"×{k} on {d}.{param} (one of the {len(spec['patterns'][pn]['devices'])} devices of {pn}): {bad}"))
     # all traffic × k: every load-proportional quantity × k
     spec3 = copy.deepcopy(spec)
     for p in spec3["patterns"].values():
